@@ -224,12 +224,16 @@ func TestConfigurations(t *testing.T) {
 		if len(prog.Funcs) == 0 {
 			t.Skip("no functions") // the interesting configurations differ in how calls and modules are compiled
 		}
+		if rapid.IntRange(0, 3).Draw(t, "main-in-function") > 0 { // holders as locals of a function instead of globals
+			gen.WrapMain(prog)
+			feats["main-in-function"]++
+		}
 		out := ref.Run(prog)
 		if out.Budget || out.Unspecified != "" {
 			vf.Count("discard:unspecified-or-budget")
 			t.Skip("discard")
 		}
-		pr := &gen.Printer{}
+		pr := &gen.Printer{ParenPrint: rapid.IntRange(0, 7).Draw(t, "paren-print") > 0}
 		c := Case{Files: map[string]string{}}
 		split := rapid.IntRange(0, 2).Draw(t, "split-into-modules") > 0
 		if split {
